@@ -93,6 +93,7 @@ func main() {
 	nvalid := flag.Int("validate", 3, "number of completed paths whose model is emitted for native validation")
 	shardF := flag.String("shard", "", "i/n: explore only the i-th of n shards of the path tree")
 	shardDepth := flag.Int("sharddepth", 10, "decision depth at which paths are assigned to shards")
+	maxViol := flag.Int("maxviol", 1, "violation candidates recorded per assertion label")
 	tierF := flag.String("tier", "quick", "quick or thorough (visible to harnesses as vTier())")
 	regionsF := flag.String("regions", "", "comma-separated open known-finding regions")
 	flag.BoolVar(&verbose, "v", false, "verbose")
@@ -231,6 +232,7 @@ func main() {
 		ex2.maxPaths = *maxPaths
 		ex2.deadline = time.Now().Add(*timeout)
 		ex2.wantValidation = *nvalid
+		ex2.maxViolPerLabel = *maxViol
 		if *shardF != "" {
 			fmt.Sscanf(*shardF, "%d/%d", &ex2.shardI, &ex2.shardN)
 			ex2.shardDepth = *shardDepth
